@@ -14,6 +14,7 @@ import RTV.Drv.UnitExtract
 import RTV.Drv.Periods
 import RTV.Drv.DtPeriod
 import RTV.Drv.Holiday
+import RTV.Drv.Durations
 /-! Model driver: one operation per input line (tab-separated), one answer line per operation.
 Run compiled (`.lake/build/bin/rtvdriver`) or with `lake env lean --run Driver.lean`. -/
 open RTV.Drv
@@ -33,6 +34,7 @@ def dispatch (line : String) : String :=
       <|> dispatchPeriods op args
       <|> dispatchDtPeriod op args
       <|> dispatchHoliday op args
+      <|> dispatchDurations op args
       <|> dispatchDtRes op args
       <|> dispatchNum op args
       <|> dispatchSpan op args
